@@ -2,20 +2,11 @@ import Driver.C16
 
 open Driver
 
-/-- one line in, one line out; the first token selects the model -/
-def dispatch (st : Unit) (line : String) : Unit × String :=
-  match tokens line with
-  | "cmp" :: args => (st, c16 args)
-  | _ => (st, "bad-op")
-
-partial def loop (h : IO.FS.Stream) (out : IO.FS.Stream) (st : Unit) : IO Unit := do
-  let line ← h.getLine
-  if line.isEmpty then return ()
-  let (st', o) := dispatch st line
-  out.putStrLn o
-  loop h out st'
-
-def main : IO Unit := do
-  let stdin ← IO.getStdin
-  let stdout ← IO.getStdout
-  loop stdin stdout ()
+/-- `driver <mode>`: each mode is the line-protocol front end of one model family.
+Input lines start with the command name; the mode only selects the state type. -/
+def main (args : List String) : IO Unit :=
+  match args with
+  | ["c16"] => runLoop () (fun st toks => match toks with
+      | "cmp" :: a => (st, c16 a)
+      | _ => (st, "bad-op"))
+  | _ => IO.eprintln "usage: driver <mode>"
